@@ -156,7 +156,7 @@ def runCase (c : Case) : String × String :=
         let cols := tb.alignColumns t famb (siteFilterOf ft) mask gaps
         s!"align[names={joinStr names};cols={joinStr (sortStrings (cols.map strOf))}]"
     (m, sp)
-  | "lo_cmd" | "lo_comp" | "lo_snps" | "lo_mid" | "lo_derep" | "lo_out" | "lo_graph" => runLo c
+  | "lo_cmd" | "lo_comp" | "lo_snps" | "lo_mid" | "lo_derep" | "lo_pipe" | "lo_out" | "lo_graph" => runLo c
   | "bam" =>
     let W := c.nat "w"
     let k := c.nat "k"
